@@ -107,7 +107,11 @@ Inductive case :=
 | CPtConsts (vals : list N)
 (* a sequence of calls of the real ShardWriter / MetaExecutor clients over their real
    connection pool against a scripted node (late, error, undecodable, missing replies) *)
-| CPair (calls : list pcall).
+| CPair (calls : list pcall)
+(* a well-formed request that makes the node's STORE panic (storage-layer fault), then a healthy
+   request on a new connection: did the panic escape handleConn (= the data node process dies),
+   did the listener count it, was the next request served *)
+| CRecover (escaped counted next_served : bool).
 
 Definition model_reply_types (evs : list event) : list N :=
   flat_map (fun e => match e with EReply t _ => [t] | _ => [] end) evs.
@@ -206,4 +210,8 @@ Definition check_case (c : case) : N :=
       code (agree_frames && disc) (forallb call_ok calls)
   | CPtConsts vals =>
       code (list_eqb N.eqb vals [dt_unknown; dt_float; dt_integer; dt_string; dt_boolean; dt_unsigned]) true
+  | CRecover escaped counted next_served =>
+      (* model of handleConn: a handler panic is recovered by the connection's goroutine, counted,
+         the connection is dropped; the listener goes on serving *)
+      code (negb escaped && counted && next_served) (negb escaped && next_served)
   end.
